@@ -172,6 +172,29 @@ pub fn rich_generic_devs(lifetime_ok: bool) -> Vec<Dev> {
         s.variants[1].kind = Kind::Named(vec![NamedField { name: "u".into(), ty: FieldTy::U, default_with: false }]);
         true
     }));
+    d.push(dev("generic<P> used only behind PhantomData / Option, instantiated with a type without Default and Display", &["gen", "kind0"], move |s| {
+        if !free0(s) {
+            return false;
+        }
+        s.generics = vec![Generic::Type { name: "P".into(), bounds: "".into() }];
+        s.variants[0].kind = Kind::Tuple(vec![FieldTy::Raw("::core::marker::PhantomData<P>".into(), "PhantomData<vf_core::harness::Nd>".into()), FieldTy::Raw("Option<P>".into(), "None".into())]);
+        true
+    }));
+    d.push(dev("payload types that mention Self", &["kind0"], move |s| {
+        if !free0(s) {
+            return false;
+        }
+        s.variants[0].kind = Kind::Named(vec![NamedField { name: "next".into(), ty: FieldTy::Raw("Option<&'static Self>".into(), "None".into()), default_with: false }, NamedField { name: "n".into(), ty: FieldTy::U8, default_with: false }]);
+        true
+    }));
+    d.push(dev("generic<T: Default = u8> (defaulted type parameter)", &["gen", "kind0"], move |s| {
+        if !free0(s) {
+            return false;
+        }
+        s.generics = vec![Generic::Type { name: "T".into(), bounds: "Default = u8".into() }];
+        s.variants[0].kind = Kind::Tuple(vec![FieldTy::T]);
+        true
+    }));
     d.push(dev("generic<T, const N: usize> where T: Default + Copy (bounds only in the where clause)", &["gen", "kind0"], move |s| {
         if !free0(s) {
             return false;
@@ -182,4 +205,26 @@ pub fn rich_generic_devs(lifetime_ok: bool) -> Vec<Dev> {
         true
     }));
     d
+}
+
+/// Declaration-context deviation: the enum (and all the glue items) is declared inside the body of `run` instead of at
+/// module level. The meaning of the definition is unchanged; generated code that relies on module-level paths to reach the
+/// enum or its helper items (an inner `mod`, `self::`/`super::` paths) stops compiling.
+pub fn context_devs() -> Vec<Dev> {
+    vec![dev("context: enum declared inside a fn body", &["ctx"], |s| {
+        s.syntax.push("in-fn".into());
+        true
+    })]
+}
+
+/// applied by `finish`: move every item that precedes `pub fn run(..)` into its body
+pub fn into_fn_body(source: &str) -> String {
+    let marker = "pub fn run(ctx: &mut vf_core::Ctx) {\n";
+    match source.find(marker) {
+        Some(p) => {
+            let (before, after) = source.split_at(p);
+            format!("{}{}\n{}", marker, before, &after[marker.len()..])
+        }
+        None => source.to_string(),
+    }
 }
